@@ -14,9 +14,11 @@ class ScriptSock:
         self.script, self.accepted, self.offered, self.offered_after_fatal, self.fatal_seen = [], b"", 0, 0, False
         self.shut = False
         self.ferr, self.aerr = "EPIPE", "EAGAIN"
+        self.shut_wr, self.qsofar = [], [0]
     def send(self, data, flags=0):
         self.offered += 1
-        if self.fatal_seen or self.shut: self.offered_after_fatal += 1
+        # a write after shutdown(SHUT_WR) requested by the CALLER is refused by the socket but is not a write "after a fatal error"
+        if self.fatal_seen or self.fd_closed or (self.shut and not self.shut_wr): self.offered_after_fatal += 1
         o = self.script.pop(0) if self.script else {"o": "accept", "k": 1 << 30}
         if self.fatal_seen or self.shut: o = {"o": "fatal"}          # a shut-down socket refuses every write
         if o["o"] == "again": raise socket.error(getattr(errno, self.aerr), self.aerr)
@@ -35,7 +37,9 @@ class ScriptSock:
             raise socket.error(errno.ECONNRESET, "ECONNRESET")
         raise socket.error(errno.EAGAIN, "EAGAIN")
     def shutdown(self, how=None):
-        if how is None or how == socket.SHUT_RDWR or how == socket.SHUT_WR: self.shut = True
+        if how is None or how == socket.SHUT_RDWR or how == socket.SHUT_WR:
+            self.shut = True
+            self.shut_wr.append([len(self.accepted), self.qsofar[0]])       # bytes written / bytes queued so far, at this moment
     def close(self): self.shut = True; self.fd_closed = True
     fd_closed = False
     def fileno(self): return -1
@@ -82,7 +86,7 @@ class C20(Check):
                    "controller connection: `disconnected` is only ever set by a fatal SEND error in this model; a disconnect from the cooperative side (read EOF, echo timeout, application disconnect()) while data is deferred is not an action of the model",
                    "select never reports an exceptional condition (elist) for a connection with deferred data: DeferredSender.run would then drop the queued data silently and leave the connection up (outside the property's fault alphabet: short writes, would-block, fatal errors); likewise its outer bare `except`",
                    "'reported closed exactly once' for the controller connection is ConnectionDown: as a THEOREM it is C09's down_once (both fatal paths end in Connection.disconnect, guarded by disconnection_raised); here the oracle counts the ConnectionDown events of an announced connection on the real code after every part-B history (exactly one on the nexus and one on the connection iff a fatal error occurred, the serving task's con.close() included); part A proves it for the IOWorker",
-                   "IOWorker: connecting sockets (_connecting/_try_connect) and shutdown(send) are not modelled"]
+                   "IOWorker: connecting sockets (_connecting/_try_connect) are not modelled; shutdown(send) is not in the Lean model — histories containing it are judged by the oracle alone (the socket is shut down for writing only once everything queued has been written, and is shut down once it has)"]
     rule = ("case A = op sequence over {send, send_fast(outcome), loop iteration(outcome), loop iteration with the worker readable AND writable (data / end of stream / receive error, then outcome)}; case B = action sequence over {Connection.send(data, outcome), sender iteration(outcomes), "
             "other connection defers / is flushed}; corpus = all sequences of 3 messages x 4 calls over 6 outcomes (A) and all B sequences of length <= 4 over a 9-letter alphabet; "
             "every case carries the errno of its fatal outcome (14 numbers) and the spelling of would-block (EAGAIN / EWOULDBLOCK): every error other than would-block is fatal (the code's rule, the model's single `fatal` outcome); "
@@ -142,6 +146,14 @@ class C20(Check):
             for more in ([3], [4], [1, 3], [2, 3], [5, 3]):
                 for tail in ([{"op": "flush", "outs": [0, 0]}], [{"op": "send", "i": 1, "n": 4, "o": 0}, {"op": "flush", "outs": [1, 0]}], [{"op": "flush", "outs": [3]}, {"op": "send", "i": 1, "n": 4, "o": 3}]):
                     cases.append({"part": "B", "pb": 2, "ops": [{"op": "send", "i": 0, "n": 9, "o": o1, "more": more}] + tail + [{"op": "flush", "outs": []}, {"op": "flush", "outs": []}]})
+        # shutdown(send) (= OFConnection.close) with 0, 1, 2 and many bytes pending, drained by short writes (oracle only)
+        for n in (1, 2, 5):
+            for o1 in (0, 1, 2, 3):
+                for o2 in (0, 1, 3):
+                    for pre in ([], [{"op": "pump", "o": 1}], [{"op": "pump", "o": 0}]):
+                        cases.append({"part": "A", "ops": [{"op": "send", "i": 0, "n": n}] + pre + [{"op": "shutdown"}, {"op": "pump", "o": o1}, {"op": "pump", "o": o2}] + [{"op": "pump", "o": 1}] * n +
+                                                         [{"op": "pump", "o": 0}, {"op": "pump", "o": 0}]})
+        cases.append({"part": "A", "ops": [{"op": "send", "i": 0, "n": 4}, {"op": "shutdown"}, {"op": "pump", "o": 2}, {"op": "send", "i": 1, "n": 3}, {"op": "pump", "o": 0}, {"op": "pump", "o": 0}, {"op": "pump", "o": 0}]})
         # every fatal errno (and both spellings of would-block) through one fatal-after-partial-write history of each part
         for fe in FERRS:
             for ae in AERRS:
@@ -169,7 +181,8 @@ class C20(Check):
                     r = rng.random()
                     if r < 0.3: ops.append({"op": "send", "i": k, "n": rng.choice([1, 2, 7, rng.randint(1, 40)])})
                     elif r < 0.55: ops.append({"op": "sendfast", "i": k, "n": rng.choice([1, 2, 7, rng.randint(1, 40)]), "o": self._rout(rng)})
-                    elif r < 0.85: ops.append({"op": "pump", "o": self._rout(rng)})
+                    elif r < 0.83: ops.append({"op": "pump", "o": self._rout(rng)})
+                    elif r < 0.85 and rng.random() < 0.5: ops.append({"op": "shutdown"})
                     else: ops.append({"op": "pumprw", "rx": rng.choice(["data", "data", "eof", "error"]), "o": self._rout(rng)})
                     if ops[-1]["op"] != "send" and rng.random() < 0.3:          # what further calls in the same pass would get
                         ops[-1]["more"] = [self._rout(rng) for _ in range(rng.randint(1, 3))]
@@ -190,6 +203,7 @@ class C20(Check):
         for c in self._thread_cases(rng, tier): yield c
 
     partT_skipped = None
+    max_steps_seen = 0
 
     def _thread_cases(self, rng, tier):
         import c20_threads
@@ -209,7 +223,7 @@ class C20(Check):
             yield {"part": "T", "tcase": c}
 
     def extra_evidence(self):
-        return {"part_T_skipped": self.partT_skipped}
+        return {"part_T_skipped": self.partT_skipped, "part_T_max_scheduling_steps": self.max_steps_seen, "part_T_step_budget": 20000}
 
     def _rout(self, rng):
         r = rng.random()
@@ -229,7 +243,11 @@ class C20(Check):
             r = c20_threads.run_thread_case(case["tcase"])
             o = dict(r["obs"]); o.update(status=("ok" if r["status"] == "quiescent" and not r["thread_errors"] else "T:" + r["status"] + ":" + ",".join(map(str, r["thread_errors"]))[:80]),
                                  acts=r["acts"], steps=r["steps"])
-            if r["status"] == "harness-budget": raise SystemExit(2)          # infrastructure, never a violation
+            # the forced scheduler's budget is a number of scheduling STEPS (deterministic, 20000; the cases need a few hundred on
+            # a tree where the property holds — the largest count is kept in the evidence): threads that have not come to rest by
+            # then are a send path that does not quiesce (a sender loop that never drains or never lets go), not a slow machine
+            self.max_steps_seen = max(self.max_steps_seen, r["steps"] if isinstance(r["steps"], int) else len(r["steps"]))
+            if r["status"] == "harness-budget": o["status"] = "T:runaway:the send path did not come to rest within the step budget"
             return o
         return self._impl_a(case) if case["part"] == "A" else self._impl_b(case)
 
@@ -250,13 +268,20 @@ class C20(Check):
                     if getattr(getattr(x, "socket", None), "fd_closed", False):
                         return g.throw(OSError(errno.EBADF, "Bad file descriptor"))
             return g.send((rl, wl, []))
+        shut_req = []                                   # bytes pending at each shutdown(send) request
         started = [False]                               # the loop's first pass (which registers the worker) happens at the first
         status = "ok"                                   # pump: sends and even a fatal send_fast error may precede it
         try:
             for op in case["ops"]:
                 if op["op"] == "send":
+                    sock.qsofar[0] += op["n"]
                     w.send(data(op["i"], op["n"]))
+                elif op["op"] == "shutdown":
+                    # IOWorker.shutdown(send): "finish writing, then shut the socket down for writing" (OFConnection.close)
+                    shut_req.append(len(w.send_buf))
+                    w.shutdown()
                 elif op["op"] == "sendfast":
+                    sock.qsofar[0] += op["n"]
                     sock.script = [self._o(op["o"])] + [self._o(o) for o in op.get("more", [])]
                     w.send_fast(data(op["i"], op["n"]))
                     sock.script = []
@@ -286,7 +311,8 @@ class C20(Check):
         except Exception as e:
             status = "raise:" + type(e).__name__
         return {"accepted": sock.accepted.hex(), "send_buf": bytes(w.send_buf).hex(), "closed": bool(w.closed), "close_events": len(closes),
-                "offered": sock.offered, "offered_after_fatal": sock.offered_after_fatal, "status": status}
+                "offered": sock.offered, "offered_after_fatal": sock.offered_after_fatal, "status": status,
+                "shut_wr": sock.shut_wr, "shut_req": shut_req, "fatal_seen": sock.fatal_seen}
 
     def _impl_b(self, case):
         of_01 = self.of_01
@@ -372,6 +398,7 @@ class C20(Check):
 
     def model_request(self, case):
         if case["part"] == "T": return None
+        if case["part"] == "A" and any(op["op"] == "shutdown" for op in case["ops"]): return None     # shutdown(send) is not in the model: oracle only
         if case["part"] == "A":
             ops = []
             for op in case["ops"]:
@@ -418,6 +445,12 @@ class C20(Check):
                 if op["op"] in ("send", "sendfast"): queued += data(op["i"], op["n"])
             acc, buf = bytes.fromhex(obs["accepted"]), bytes.fromhex(obs["send_buf"])
             if not queued.startswith(acc): return "socket accepted bytes that are not a prefix of the queued stream"
+            for wrote, qd in obs.get("shut_wr", []):
+                # shutdown(send) means "after what is queued has been written": shutting the socket down for writing while
+                # queued bytes are unwritten loses them
+                if wrote < qd and not obs["fatal_seen"]: return "socket shut down for writing with %d queued byte(s) unwritten" % (qd - wrote)
+            if obs.get("shut_req") and max(obs["shut_req"]) > 0 and not obs["closed"] and not obs["fatal_seen"] and buf == b"" and not obs["shut_wr"]:
+                return "shutdown(send) requested with data pending, the data was written, but the socket was never shut down for writing"
             if not obs["closed"] and acc + buf != queued: return "open worker: accepted + buffered != queued (lost/duplicated/reordered)"
             if not obs["closed"] and buf == b"" and acc != queued: return "quiescent but not everything was written"
             if obs["offered_after_fatal"]: return "write attempted after a fatal socket error"
